@@ -1,6 +1,7 @@
 package mon
 
 import (
+	"verif/gen"
 	"fmt"
 	"math/rand"
 	"path/filepath"
@@ -180,10 +181,11 @@ func mixedGraphConfigN(n int, kind func(i, j int) int, sharedNames bool) *cfg.Co
 }
 
 func checkC07(c *Ctx) error {
-	c.Rule = "(a) all 512 digraphs on 3 parameters incl. self-loops (always); (b) all 512 @-digraphs on 3 services (always); (c) all 4^9 = 262 144 graphs on 3 services where every ordered pair is one of {none, @service, via !tagged, via decorator-on-tag} (thorough: all; quick: seeded sample of 6 000); (d) seeded sparse graphs on <=12 parameters and services with overlapping cycles, all edge kinds. Each configuration runs through the real binary; the 'Circular dependencies' step must fail iff the reference relation has a cycle (Tarjan SCC), every reported line must be a closed walk of the relation, every element on a cycle must occur in a reported line. Accepted samples are compiled and executed: CircularDeps()==nil and every GetParam returns. distinct = distinct configuration; non-trivial = the relation has at least one edge"
+	c.Rule = "(a) all 512 digraphs on 3 parameters incl. self-loops (always); (b) all 512 @-digraphs on 3 services (always); (c) all 4^9 = 262 144 graphs on 3 services where every ordered pair is one of {none, @service, via !tagged, via decorator-on-tag} (thorough: all; quick: seeded sample of 6 000); (d) seeded sparse graphs on <=12 parameters and services with overlapping cycles, all edge kinds; a third of them also refer to services/parameters that are not declared and are built with both --ignore-missing-* flags. Each configuration runs through the real binary; the 'Circular dependencies' step must fail iff the reference relation has a cycle (Tarjan SCC), every reported line must be a closed walk of the relation, every element on a cycle must occur in a reported line. Accepted samples are compiled and executed: CircularDeps()==nil and every GetParam returns. distinct = distinct configuration; non-trivial = the relation has at least one edge"
 	c.Assumptions = []string{"reference relation engine/ref.BuildGraph (statement of C07)", "graphs whose largest strongly connected component exceeds 6 nodes are skipped (the statement's cost proviso) and counted"}
 	w := c.W
 	var jobs []*cfg.Config
+	flagged := map[int]bool{} // job index -> built with both --ignore-missing-* flags
 	// (a) parameter digraphs
 	for m := 0; m < 512; m++ {
 		conf := &cfg.Config{Meta: cfg.Meta{Pkg: cfg.P("gen")}}
@@ -268,9 +270,18 @@ func checkC07(c *Ctx) error {
 			skipped++
 			continue
 		}
+		if k%3 == 1 {
+			// the same graphs with references to services / parameters that only exist at run time, built with the
+			// --ignore-missing-* flags: what is a cycle does not depend on them
+			for j := 0; j < 1+r.Intn(2); j++ {
+				gen.Inject(r, conf, []string{"missing-service", "missing-param", "missing-mixed"}[r.Intn(3)], j)
+			}
+			flagged[len(jobs)] = true
+		}
 		jobs = append(jobs, conf)
 	}
 	c.Set("random_graphs_skipped_many_cycles", skipped)
+	c.Set("random_graphs_with_run_time_only_dependencies", len(flagged))
 	accepted := make([]bool, len(jobs))
 	Par(len(jobs), 16, func(i int) {
 		conf := jobs[i]
@@ -278,8 +289,12 @@ func checkC07(c *Ctx) error {
 		yaml := conf.YAML()
 		_ = work.WriteFile(filepath.Join(dir, "in.yaml"), []byte(yaml))
 		out := filepath.Join(dir, "out.go")
-		run := cli.Do(w, "", nil, dir, out, "build", "-i", "in.yaml", "-o", out)
-		files := map[string]string{"input/in.yaml": yaml, "stdout.txt": run.Res.Stdout}
+		args := []string{"build", "-i", "in.yaml", "-o", out}
+		if flagged[i] {
+			args = append(args, "--ignore-missing-services", "--ignore-missing-params")
+		}
+		run := cli.Do(w, "", nil, dir, out, args...)
+		files := map[string]string{"input/in.yaml": yaml, "stdout.txt": run.Res.Stdout, "args.txt": strings.Join(args, " ")}
 		for _, b := range run.Contract() {
 			c.Violate("cli-contract:"+sigWords(b), b, files)
 		}
@@ -298,7 +313,7 @@ func checkC07(c *Ctx) error {
 			c.Add("acyclic_configurations", 1)
 		}
 		judgeCycles(c, conf, &run, files)
-		accepted[i] = run.Res.Exit == 0
+		accepted[i] = run.Res.Exit == 0 && !flagged[i]
 		if i == 700 || i == 1300 {
 			c.Sample(map[string]any{"config": yaml, "exit": run.Res.Exit, "cycle_lines": run.Rep.ErrorsOf("Circular dependencies"), "reference_services_on_cycle": keys(g.ServicesOnCycle()), "reference_params_on_cycle": keys(g.ParamsOnCycle())})
 		}
